@@ -453,6 +453,8 @@ package gnet
 //@   ensures nopen[c] == 1 || (nopen[c] == 0 && !c.opened && owner[c.fd] == nil && err != nil && reg(el.connections, c.fd) != c)
 //@   ensures c.opened ==> nopen[c] == 1 && CIx(c) && (err == nil ==> CI(c))
 //@   ensures !c.opened && nopen[c] == 1 ==> CZ(c) && c.phase == 2 && nclose[c] == 1 && reg(el.connections, c.fd) != c
+// C14 (use of the registry): a registration the poller refuses leaves the registry exactly as it was.
+//@   ensures [C14] nopen[c] == 0 ==> el.connections.connCount == old(el.connections.connCount) && (forall f :: reg(el.connections, f) == old(reg(el.connections, f)))
 //
 // conn.writev: same as write for a vector of segments. Proved here: memory safety, the descriptor is only used while the
 // connection is open and with at most IOV_MAX segments, the invariants and the accepted prefix are preserved, failures
@@ -649,15 +651,19 @@ package gnet
 //@   ensures !emptyeng(e) && shutd(e.eng) ==> fd == -1 && err == errorx.ErrEngineInShutdown
 //
 // Stop: on a started engine that is not shut down yet the shutdown is signalled on every path, whatever the context says
-// (so a context that ends first does not cancel the shutdown); the wait loop behind it is not under proof.
+// (so a context that ends first does not cancel the shutdown). The wait loop: any ready case of the select may be taken
+// at any iteration; nil is returned only when the terminal flag has been read as set, otherwise what is returned is the
+// value of the context's Err() (ctxerrref / ctxerrtyp: the result of the latest call of Context.Err).
 //@ func (e Engine) Stop(ctx context.Context) (err error)
 //@   requires engwf(e) && ctx != nil
 //@   ensures !emptyeng(e) && !old(shutd(e.eng)) ==> shutsig
 //@   modifies-all-except eventloop, Options, listener
-//@   assert after (*engine).shutdown #1: !emptyeng(e) && !shutd(e.eng)
-//@   stop after (*engine).shutdown #1
+//@   assert after (*engine).shutdown #1: !emptyeng(e) && !old(shutd(e.eng))
 //@   ensures emptyeng(e) ==> err == errorx.ErrEmptyEngine
-//@   ensures !emptyeng(e) && shutd(e.eng) ==> err == errorx.ErrEngineInShutdown
+//@   ensures !emptyeng(e) && old(shutd(e.eng)) ==> err == errorx.ErrEngineInShutdown
+//@   ensures !emptyeng(e) && !old(shutd(e.eng)) ==> (err == nil && shutd(e.eng)) || (ref(err) == ctxerrref && tyid(err) == ctxerrtyp)
+//@   loop 1:
+//@     invariant e == e$0 && ctx == ctx$0 && !emptyeng(e) && shutsig && ticker != nil
 //
 //@ func (e Engine) Register(ctx context.Context) (ch <-chan RegisteredResult, err error)
 //@   requires engwf(e)
@@ -676,6 +682,7 @@ package gnet
 // DG: what the handler finds in OnTraffic for a datagram.
 //@ pred DG(c *conn) := c != nil && c.isDatagram && c.loop != nil && elwf(c.loop) && owner[c.fd] != nil && addrok(c) &&
 //@     len(c.buffer) == rcvn[c.fd] && (forall i :: 0 <= i && i < len(c.buffer) ==> c.buffer[i] == rcvdata[c.fd][i]) &&
+//@     (dglen[c.fd] <= len(c.loop.buffer) ==> len(c.buffer) == dglen[c.fd]) &&
 //@     c.inboundBuffer.rb == nil && len(c.cache) == 0 &&
 //@     (c.remote != nil ==> ref(c.remote) == rcvfrom[c.fd] && socket.udpof(c.remoteAddr, c.remote))
 //
